@@ -42,6 +42,8 @@ def ordcmp(e, c, a, accept):
         if isinstance(x, (int, bool)) or is_sym(x):
             op = {('Less',): 'Lt', ('Less', 'Equal'): 'Le', ('Greater',): 'Gt', ('Greater', 'Equal'): 'Ge'}[accept]
             return e.binop(op, x, y, 'usize')
+        if isinstance(x, (Enum, Struct, VecObj, StrBuf, str)):       # std types (Option<_>, tuples, ...): derived lexicographic order
+            return M['Ord::cmp'](e, c, a).v in accept
         raise Unsupported('no partial_cmp for ' + c)
     r = e.call_mir(f, a)       # Option<Ordering>
     assert r.v == 'Some'
